@@ -114,6 +114,32 @@ Proof.
 Qed.
 Print Assumptions C03_segmentation_vs_uninterrupted.
 
+(* p' may be p with every command (every stop()) removed from its handlers *)
+Theorem C03_stripping_stops_is_equivalent : forall p, prog_equiv p (strip_cmds p).
+Proof. exact prog_equiv_strip. Qed.
+Print Assumptions C03_stripping_stops_is_equivalent.
+
+(* and the uninterrupted start of a program that does not interrupt runs does
+   reach the inclusive end unless the model ran out of fuel: its hypotheses in
+   the segmentation theorem are then met *)
+Theorem C03_uninterrupted_start_completes : forall p fuel s r,
+  worker s = WAlive -> rep s = Some r -> start_checks s = true -> calm (strat s) p ->
+  let s' := fst (do_cmd fuel p s CStart) in
+  flag s' = false -> ps s' = PEnded /\ incl s' = true /\ clock s' = r_end r.
+Proof. exact calm_start_completes. Qed.
+Print Assumptions C03_uninterrupted_start_completes.
+
+(* the whole replication: initialize + any cuts, against initialize + one start
+   of an equivalent program (e.g. strip_cmds p, or p itself) *)
+Theorem C03_segmentation_from_initialize : forall p p' fuel fuel' r cs s,
+  running s = false -> prog_equiv p p' -> forallb is_runcmd cs = true ->
+  let s1 := fst (run_cmds fuel p s (CInit r :: cs)) in
+  let t1 := fst (run_cmds fuel' p' s [CInit r; CStart]) in
+  ps s1 = PEnded -> incl s1 = true -> ps t1 = PEnded -> incl t1 = true ->
+  trace s1 = trace t1 /\ clock s1 = clock t1.
+Proof. exact segmentation_from_init. Qed.
+Print Assumptions C03_segmentation_from_initialize.
+
 (* however far a segmented run got, it executed a prefix of the completed run *)
 Theorem C03_segmentation_prefix : forall p p' fuel fuel' cs cs' s t,
   prog_equiv p p' -> core_eq s t -> Quiet s -> Quiet t ->
